@@ -111,10 +111,72 @@ def call(G, pn, pm, u, v, z_w, z_r):
     return G.compute_w(pn, pm, u[None], v[None], z_w[None], z_r[None])[0]
 
 
-def check_case(ctx, G, drv, pend, c, dims=None, use_driver=True, np_fields=False):
+
+def log_uniform(rng, lo, hi):
+    return float(np.exp(rng.uniform(np.log(lo), np.log(hi))))
+
+
+DEPTH_CLASSES = ["lab_scale", "sub_metre", "sub_metre", "unit_depth", "around_one_metre", "around_one_metre", "metres", "abyssal"]
+CELL_CLASSES = ["as_generated", "as_generated", "unit_cells", "lab_cells", "metre_cells", "coarse_cells"]
+
+
+def draw_depth_scale(rng, cls, z_w):
+    """Factor for the vertical coordinate (levels z -> f*z: every level set of the quantifier stays one, monotone, flat stays
+    flat) that brings the water columns' total thickness T = z_w[-1] - z_w[0] into the class: lab / non-dimensional scale
+    (1e-4..2e-2), below one metre everywhere, exactly one (non-dimensional unit depth, deepest column), columns on either
+    side of one metre, a few metres, oceanic trench."""
+    T = z_w[-1] - z_w[0]
+    tmax = float(T.max())
+    if cls == "lab_scale":
+        return log_uniform(rng, 1e-4, 2e-2) / tmax
+    if cls == "sub_metre":
+        return log_uniform(rng, 0.02, 0.99) / tmax
+    if cls == "unit_depth":
+        return 1.0 / tmax
+    if cls == "around_one_metre":
+        J, I_ = T.shape
+        t = float(T[rng.randrange(J), rng.randrange(I_)])
+        return rng.uniform(0.6, 1.6) / t
+    if cls == "metres":
+        return rng.uniform(1.0, 20.0) / tmax
+    return rng.uniform(1000.0, 11000.0) / tmax          # abyssal
+
+
+def depth_tag(z_w):
+    T = z_w[-1] - z_w[0]
+    lo, hi = float(T.min()), float(T.max())
+    if hi < 1.0:
+        return "all_columns_below_1m" if hi > 2e-2 else "all_columns_below_2cm"
+    if lo < 1.0:
+        return "columns_on_both_sides_of_1m"
+    return "all_columns_1m_to_20m" if hi <= 20.0 else ("all_columns_above_1m" if hi <= 200.0 else "deeper_than_200m")
+
+
+def draw_cells(rng, cls, pm, pn):
+    """Other positive metric coefficients on the same grid: unit cells (pm = pn = 1, a non-dimensional grid), centimetre to
+    metre cells of a laboratory flume, cells of 1..20 m, cells of 5..50 km; the relative variation of the generated ones
+    (uniform or varying, anisotropic) is kept except for unit cells."""
+    if cls == "as_generated":
+        return pm, pn
+    if cls == "unit_cells":
+        return np.ones_like(pm), np.ones_like(pn)
+    # generated cells are 160..800 m: f multiplies the cell size
+    f = {"lab_cells": log_uniform(rng, 2e-5, 1e-3), "metre_cells": log_uniform(rng, 2e-3, 3e-2), "coarse_cells": log_uniform(rng, 10.0, 60.0)}[cls]
+    return pm / f, pn / f
+
+
+def check_case(ctx, G, drv, pend, c, dims=None, use_driver=True, np_fields=False, scales=False):
     flat = ctx.rng.random() < 0.6
     J, I_, K, pm, pn, z_w, z_r = make_grid(ctx.rng, flat, dims)
     style, z_w, z_r = restyle(ctx.rng, flat, J, I_, K, z_w, z_r)
+    dcls = ccls = None
+    if scales:
+        # the dimension "how deep / how wide": the same level styles and metrics, brought to another total depth (z -> f*z) and
+        # another cell size (pm, pn -> pm/g, pn/g).  The statement holds "for any layer thicknesses and any ... cell sizes".
+        dcls = ctx.rng.choice(DEPTH_CLASSES); ccls = ctx.rng.choice(CELL_CLASSES)
+        fz = draw_depth_scale(ctx.rng, dcls, z_w)
+        z_w = z_w * fz; z_r = z_r * fz
+        pm, pn = draw_cells(ctx.rng, ccls, pm, pn)
     if np_fields:
         R = np.random.RandomState(ctx.sub_seed())
         draw_uv = lambda: (R.uniform(-1, 1, (K, J, I_ - 1)), R.uniform(-1, 1, (K, J - 1, I_)))
@@ -125,6 +187,10 @@ def check_case(ctx, G, drv, pend, c, dims=None, use_driver=True, np_fields=False
     ctx.case(key=(J, I_, K, flat, float(u.sum()), float(pm.sum())), nontrivial=True, sample=dict(J=J, I=I_, K=K, flat=flat, style=style) if c < 3 else None)
     ctx.branch("flat" if flat else "rough"); ctx.size("K", K); ctx.branch("levels." + style)
     ctx.branch("size.small" if max(J, I_) <= 7 and K <= 6 else ("size.medium" if max(J, I_) <= 12 else "size.large"))
+    if scales:
+        ctx.branch("depth_class." + dcls); ctx.branch("depth." + depth_tag(z_w)); ctx.branch("cells." + ccls)
+        ctx.branch("depth.%s.%s" % ("flat" if flat else "rough", depth_tag(z_w)))
+        cs.update(depth_class=dcls, cell_class=ccls)
     keep = [a.copy() for a in (pn, pm, u, v, z_w, z_r)]
     try:
         w = call(G, pn, pm, u, v, z_w, z_r)
@@ -215,6 +281,10 @@ def check_case(ctx, G, drv, pend, c, dims=None, use_driver=True, np_fields=False
     # grid/field pair of its own, so frame t must be the w of that frame's grid and field (tolerance as for linearity)
     _, _, _, _, _, z_wb, z_rb = make_grid(ctx.rng, flat, (J, I_, K))
     _, z_wb, z_rb = restyle(ctx.rng, flat, J, I_, K, z_wb, z_rb)
+    if scales:
+        # the second frame's levels in a depth class of their own (a frame is a grid/field pair of its own)
+        fzb = draw_depth_scale(ctx.rng, ctx.rng.choice(DEPTH_CLASSES), z_wb)
+        z_wb = z_wb * fzb; z_rb = z_rb * fzb
     wb = call(G, pn, pm, u2, v2, z_wb, z_rb)
     try:
         w_2f = G.compute_w(pn, pm, np.stack([u, u2]), np.stack([v, v2]), np.stack([z_w, z_wb]), np.stack([z_r, z_rb]))
@@ -222,6 +292,16 @@ def check_case(ctx, G, drv, pend, c, dims=None, use_driver=True, np_fields=False
         ctx.oracle(w_2f.shape == (2, K + 1, J, I_) and e0 <= 1e-9 * scale and e1 <= 1e-9 * (np.abs(wb).max() + 1e-30), "C14.frame_mixed", SITE,
                    "two-frame call: frame 0 differs by %r, frame 1 by %r from the single-frame results" % (e0, e1),
                    dict(cs, u2=u2, v2=v2, z_w2=z_wb, z_r2=z_rb))
+        if flat:
+            # frame 1 over its own flat-bottom levels: the statement's closed form (no call of compute_w), tolerance as C14.flat_identity
+            want_b = flat_w_interior(pn, pm, u2, v2, z_wb)
+            scb = np.abs(want_b).max() + 1e-30
+            errb = np.abs(w_2f[1][:, 1:-1, 1:-1] - want_b).max() if w_2f.shape == (2, K + 1, J, I_) else np.inf
+            ctx.oracle(errb <= 1e-9 * scb, "C14.flat_identity.second_frame", SITE,
+                       "two-frame call, frame 1: identity error %r (scale %r)" % (errb, scb), dict(cs, u2=u2, v2=v2, z_w2=z_wb, z_r2=z_rb))
+            sfb = np.abs(w_2f[1][-1]).max(); bdb = np.abs(w_2f[1][0]).max()
+            ctx.oracle(bdb <= 1e-12 * scb and sfb <= 1e-9 * scb, "C14.bed_surface_not_zero.second_frame", SITE,
+                       "two-frame call, frame 1: bed %r surface %r (scale %r)" % (bdb, sfb, scb), dict(cs, u2=u2, v2=v2, z_w2=z_wb, z_r2=z_rb))
     except Exception as e:
         ctx.oracle(False, "C14.compute_w.raises", SITE, "two-frame call raised %r" % (e,), dict(J=J, I=I_, K=K, style=style))
     ctx.branch("two_frames")
@@ -321,6 +401,63 @@ def gen_offset_case(rng):
                 store=store, pack_exp=pack_exp, file_cuts=cuts, files_as=rng.choice(["list", "glob"]))
 
 
+def gen_depth_case(rng):
+    """A synthetic file of either family with the vertical grid and the cell sizes of another scale.  The bathymetry h of the
+    file is flat at a depth of laboratory scale / below one metre / exactly one / a few metres / oceanic, or rough and scaled
+    so that every column is shallower than one metre, columns lie on both sides of one metre, or all are deep.  The vertical grid
+    is given the ways Grid accepts it: hc, Cs_r, Cs_w in the file with the default transform (Vtransform absent or 1; hc <=
+    min h keeps the levels monotone), the same with Vtransform = 2 in the file (monotone for any hc >= 0), or the `Vinfo`
+    entry of the configuration (N, hc, theta_s, theta_b, Vstretching 1 | 2 | 4, Vtransform 1 | 2)."""
+    case = gen_offset_case(rng) if rng.random() < 0.5 else gen_forcing_case(rng)
+    if rng.random() < 0.65:
+        dcls = rng.choice(["lab_scale", "sub_metre", "sub_metre", "sub_metre", "unit_depth", "metres", "oceanic"])
+        depth = {"lab_scale": lambda: log_uniform(rng, 1e-3, 5e-2), "sub_metre": lambda: log_uniform(rng, 0.05, 0.99),
+                 "unit_depth": lambda: 1.0, "metres": lambda: rng.uniform(1.0, 10.0), "oceanic": lambda: rng.uniform(500.0, 5000.0)}[dcls]()
+        case["flat"] = depth; hs = 1.0; hmin = depth
+    else:
+        # write_roms draws h = 20 + 80*r, r in [0, 1): hs*h is in [20 hs, 100 hs)
+        dcls = rng.choice(["rough_below_1m", "rough_both_sides_of_1m", "rough_both_sides_of_1m", "rough_deep"])
+        hs = {"rough_below_1m": lambda: log_uniform(rng, 5e-4, 9.9e-3), "rough_both_sides_of_1m": lambda: rng.uniform(0.011, 0.045),
+              "rough_deep": lambda: rng.uniform(5.0, 50.0)}[dcls]()
+        case["flat"] = None; hmin = 20.0 * hs
+    vert = rng.choice(["file_default_transform", "file_Vtransform_1", "file_Vtransform_2", "file_Vtransform_2", "Vinfo", "Vinfo"])
+    vt = 2 if vert == "file_Vtransform_2" else 1
+    vinfo = None
+    if vert == "Vinfo":
+        vt = rng.choice([1, 2])
+        vs = rng.choice([1, 1, 2, 4])
+        vinfo = dict(N=case["N"], theta_s=rng.uniform(0.5, 7.0), theta_b=(rng.uniform(0.0, 1.0) if vs == 1 else rng.uniform(0.1, 2.0)),
+                     Vstretching=vs, Vtransform=vt)
+    hc = hmin * (rng.choice([0.0, 1.0, rng.uniform(0.05, 1.0)]) if vt == 1 else rng.choice([0.0, rng.uniform(0.05, 1.0), rng.uniform(1.0, 4.0)]))
+    if vinfo is not None:
+        vinfo["hc"] = hc
+    ccls = rng.choice(CELL_CLASSES)
+    # write_roms cells are 700..900 m; g multiplies the cell size (None: as written; 0: unit cells pm = pn = 1)
+    g = {"as_generated": None, "unit_cells": 0.0, "lab_cells": log_uniform(rng, 1e-5, 1e-3), "metre_cells": log_uniform(rng, 1.5e-3, 2.5e-2),
+         "coarse_cells": log_uniform(rng, 6.0, 60.0)}[ccls]
+    case.update(mode="depth." + case["mode"], depth_class=dcls, h_scale=hs, vert=vert, Vtransform=vt, hc=hc, Vinfo=vinfo, cell_class=ccls, cell_factor=g)
+    return case
+
+
+def apply_depth_options(path, out, case):
+    """Rewrite h, hc (and Vtransform, pm, pn) of the grid file written by romsfile.write_roms as the case says; `out` (what the
+    harness knows was written) is updated alike."""
+    import netCDF4
+    ds = netCDF4.Dataset(path, "a")
+    h = np.asarray(out["h"], dtype=float) * case["h_scale"]
+    ds.variables["h"][:] = h; out["h"] = h
+    ds.variables["hc"][...] = case["hc"]; out["hc"] = case["hc"]
+    if case["vert"] in ("file_Vtransform_1", "file_Vtransform_2"):
+        v = ds.createVariable("Vtransform", "i4", ()); v[...] = case["Vtransform"]
+    g = case["cell_factor"]
+    if g is not None:
+        pm = np.ones_like(out["pm"]) if g == 0.0 else out["pm"] / g
+        pn = np.ones_like(out["pn"]) if g == 0.0 else out["pn"] / g
+        ds.variables["pm"][:] = pm; ds.variables["pn"][:] = pn
+        out["pm"] = pm; out["pn"] = pn
+    ds.close()
+
+
 def forcing_cases(ctx, G):
     tmp = tempfile.mkdtemp(prefix="verif_c14_")
     try:
@@ -330,6 +467,10 @@ def forcing_cases(ctx, G):
         # frames spread over several files
         for c in range(ctx.n(24, 400)):
             run_forcing_case(ctx, G, tmp, 100000 + c, gen_offset_case(ctx.rng), sample=c < 1)
+        # other total depths (down to millimetres, up to kilometres; flat or rough), the vertical grid given through the file
+        # (either transform) or through Vinfo, other cell sizes; both start / schedule families
+        for c in range(ctx.n(30, 500)):
+            run_forcing_case(ctx, G, tmp, 200000 + c, gen_depth_case(ctx.rng), sample=c < 1)
     finally:
         shutil.rmtree(tmp, ignore_errors=True)
 
@@ -352,6 +493,8 @@ def run_forcing_case(ctx, G, tmp, c, case, sample=False):
         o = romsfile.write_roms(path, ctx.rng, nx=nx, ny=ny, N=N, frame_times=ft[bounds[n_]:bounds[n_ + 1]], t0=str(t0).replace("T", " "),
                                 fields=(), mask=mask, flat=case["flat"], write_grid=(n_ == 0), dtype=("f4" if store == "f4" else "f8"), pack=pack)
         paths.append(path); outs.append(o)
+    if "depth_class" in case:
+        apply_depth_options(paths[0], outs[0], case)
     out = dict(outs[0])
     out["u"] = np.concatenate([np.asarray(o["u"], dtype=float) for o in outs]); out["v"] = np.concatenate([np.asarray(o["v"], dtype=float) for o in outs])
     if len(paths) == 1:
@@ -361,6 +504,8 @@ def run_forcing_case(ctx, G, tmp, c, case, sample=False):
     conf = dict(gridforce=dict(input_file=input_file), start_time=t0, stop_time=t0 + np.timedelta64(int(ft[-1]), "s"), dt=dt, ibm_forcing=[])
     if case["subgrid"] is not None:
         conf["gridforce"]["subgrid"] = list(case["subgrid"])
+    if case.get("Vinfo") is not None:
+        conf["gridforce"]["Vinfo"] = dict(case["Vinfo"])
     cs = dict(case=case)
     ctx.case(key=("forcing", repr(case)), nontrivial=True, sample=case if sample else None)
     ctx.branch("forcing.start." + case["mode"]); ctx.branch("forcing.subgrid" if case["subgrid"] else "forcing.whole_grid")
@@ -374,6 +519,19 @@ def run_forcing_case(ctx, G, tmp, c, case, sample=False):
     except (Exception, SystemExit) as e:
         ctx.oracle(False, "C14.forcing.raises", SITE_F, "Grid/Forcing construction raised %r" % (e,), cs); return
     i0, i1, j0, j1 = g.i0, g.i1, g.j0, g.j1
+    if "depth_class" in case:
+        T = np.asarray(g.z_w[-1] - g.z_w[0], dtype=float)
+        ctx.branch("forcing.depth_class." + case["depth_class"]); ctx.branch("forcing.depth." + depth_tag(np.asarray(g.z_w, dtype=float)))
+        ctx.branch("forcing.vertical_grid." + case["vert"]); ctx.branch("forcing.Vtransform.%d" % case["Vtransform"])
+        ctx.branch("forcing.cells." + case["cell_class"])
+        if case["Vinfo"] is not None:
+            ctx.branch("forcing.Vinfo.Vstretching.%d" % case["Vinfo"]["Vstretching"])
+        # the generator's claim that these are monotone stretchings (inside the quantifier), checked on the levels themselves
+        zw_ = np.asarray(g.z_w, dtype=float); zr_ = np.asarray(g.z_r, dtype=float)
+        mono = bool(np.all(zw_[1:] > zw_[:-1]) and np.all(zr_ > zw_[:-1]) and np.all(zr_ < zw_[1:]))
+        if not mono:
+            ctx.note("C14 depth family: generated levels not monotone, case skipped: %r" % (case,)); ctx.branch("forcing.depth.skipped_not_monotone")
+            f.close(); return
     # the sub-grid's own arrays, cut from what was written to the file (independent of Grid/Forcing's slicing):
     # rho cells j0..j1-1 x i0..i1-1; u-faces between two of those cells; currents zero on faces touching land
     M = out["mask_rho"]
@@ -560,6 +718,16 @@ def run(ctx):
     for c in range(ctx.n(1, 20)):
         dims = (ctx.rng.randrange(14, 25), ctx.rng.randrange(14, 25), ctx.rng.randrange(13, 36))
         check_case(ctx, G, drv, pend, 1000 + c, dims, use_driver=False, np_fields=True)
+    # the same oracles (and the model, on the small grids) with the levels brought to other total depths - laboratory scale,
+    # below one metre, exactly one, around one metre, metres, abyssal - and the metrics to other cell sizes
+    for c in range(ctx.n(48, 900)):
+        dims = None
+        if ctx.rng.random() < 0.125:
+            dims = (ctx.rng.randrange(8, 13), ctx.rng.randrange(8, 13), ctx.rng.randrange(7, 13))
+        check_case(ctx, G, drv, pend, 2000 + c, dims, scales=True)
+    for c in range(ctx.n(1, 20)):
+        dims = (ctx.rng.randrange(14, 25), ctx.rng.randrange(14, 25), ctx.rng.randrange(13, 36))
+        check_case(ctx, G, drv, pend, 3000 + c, dims, use_driver=False, np_fields=True, scales=True)
     # Forcing on synthetic files
     forcing_cases(ctx, G)
     # the method on the shipped forcing file
